@@ -14,6 +14,15 @@ from ..world import effective
 EPS = 2.220446049250313e-16
 
 
+def _eps_of(values):
+    """Machine epsilon of the coarsest floating type among the values (np.float32 results are judged as such)."""
+    e = 2.220446049250313e-16
+    for v in values:
+        if isinstance(v, np.floating):
+            e = max(e, float(np.finfo(type(v)).eps))
+    return e
+
+
 def _is_exactnum(v):
     return isinstance(v, (Exact, Fraction, int)) and not isinstance(v, bool)
 
@@ -519,6 +528,7 @@ class C16Oracle(BaseOracle):
                                   explainer=k, mode=mode, cls=ecfg["cls"], vtype=type(raw[f]).__name__,
                                   zero_factor=bool(factor == 0))
             exact = all(_is_exactnum(x) for x in vals) and all(_is_exactnum(x) for x in norm.values())
+            EPS = _eps_of(vals + list(norm.values()))
             sraw = sum(abs(float(x)) for x in vals)
             nv = list(norm.values())
             all_zero_norm = all(x == 0 for x in nv)
